@@ -64,7 +64,8 @@ TEXT = {
                 "a Reset Query); other sockets' records must be untouched. Deviations and transport faults are placed at chosen PDUs / calls. "
                 "Two suites: seeded random conversations with combined faults, and a systematic single-fault enumeration: each fault-free base "
                 "conversation is re-run with exactly one fault at every receive call x {error, EINTR}, every PDU position x 18 deviations, 25 cut "
-                "offsets x {close, stall}, send faults, hang-up, silence, Cache Reset (all points in the thorough tier, a stratified sample in quick).",
+                "offsets x {close, stall}, send faults (one-shot and sticky: the connection stays dead for writing), hang-up, silence, Cache Reset "
+                "(all points in the thorough tier, a stratified sample in quick), plus seeded pairs of those points per base (150 quick, 1500 thorough).",
         "design_ref": "§8 C03", "note": "trusts the reference walk (harness/world_walk.cpp) and the cache model; rtr_sync observed through -Wl,--wrap",
         "technique": _SIM + "scripted cache with protocol/transport fault injection, reference-walk oracle at every rtr_sync return",
     },
@@ -95,7 +96,7 @@ TEXT = {
                 "with exactly the cache's records within refresh+expire+4*retry+360 s of simulated time, and no run may deadlock, spin without "
                 "reaching a scheduling point, or exceed its step budget. Runs whose fault phase made the client accept a well-formed but dishonest "
                 "response are not judged.",
-        "design_ref": "§8 C08", "note": "single faults enumerated per sampled base conversation (each followed by recovery), combinations sampled; bound uses the larger of configured and current intervals",
+        "design_ref": "§8 C08", "note": "single faults enumerated per sampled base conversation (each followed by recovery), incl. sticky send failures (every write fails until the client reconnects); combinations sampled at random and as seeded pairs of enumerated points; bound uses the larger of configured and current intervals",
         "technique": _SIM + "fault phase then clean tail, progress-within-bound check on the simulated clock",
     },
     "C13": {
